@@ -65,7 +65,10 @@ ID = "C23"
 LEVEL = "fault_enumeration"
 
 SHADOWED = ("int", "float", "len")            # what the generator covers
-OPS = (("compile", "f"), ("compile", "g"), ("check", "f"), ("check", "g"))
+OPS = (("compile", "f"), ("compile", "g"), ("check", "f"), ("check", "g"),
+       # the USER re-binds (or adds) the module-level name `len` to a new object, then compiles f: the module must
+       # keep exactly that new binding
+       ("rebind-compile", "f"))
 LABELS_QUICK = ("f0", "f1", "g1", "g2")
 LABELS_FULL = ("f0", "f1", "f2", "f3", "g0", "g1", "g2", "g3")
 KINDS = ("py", "typeerror", "linear", "leak")
@@ -85,6 +88,10 @@ class _Marker:
 MARK_INT = _Marker("int")
 MARK_FLOAT = _Marker("float")
 MARK_LEN = _Marker("len")
+# user bindings whose VALUE is falsy (a binding is a binding whatever it holds); variant entries "int!" ...
+FALSY_INT = 0
+FALSY_FLOAT = None
+FALSY_LEN = ()
 
 # ---------------------------------------------------------------- seam (harness-owned)
 _S = {"fault": None, "fired": 0, "calls": 0, "mock_seen": 0, "mock_missing": 0}
@@ -129,9 +136,12 @@ def gen_source(variant, fault) -> str:
     bad = _BAD[kind if kind in _BAD else None]
     r_body = "return x + 1.5" if kind == "rcheck" else "return x + 1"
     lines = [gload.PRELUDE.rstrip("\n"),
-             "from checks.c23 import seam, MARK_INT, MARK_FLOAT, MARK_LEN"]
+             "from checks.c23 import seam, MARK_INT, MARK_FLOAT, MARK_LEN, FALSY_INT, FALSY_FLOAT, FALSY_LEN"]
     for name in variant:
-        lines.append(f"{name} = MARK_{name.upper()}")
+        if name.endswith("!"):
+            lines.append(f"{name[:-1]} = FALSY_{name[:-1].upper()}")
+        else:
+            lines.append(f"{name} = MARK_{name.upper()}")
     lines += [
         "@guppy",
         "def r(x: int) -> int:",
@@ -171,7 +181,10 @@ def variants():
     out = [()]
     for k in range(1, len(SHADOWED) + 1):
         out.extend(itertools.combinations(SHADOWED, k))
-    return [list(v) for v in out]
+    out = [list(v) for v in out]
+    # falsy user values: each name alone, and all three
+    out += [[n + "!"] for n in SHADOWED] + [[n + "!" for n in SHADOWED]]
+    return out
 
 
 def faults(quick: bool = False):
@@ -250,7 +263,7 @@ def _warm_up() -> None:
 def root_name(root) -> str:
     variant, fault = root
     f = "nofault" if not fault else "_".join(str(fault[k]) for k in ("kind", "label", "mode"))
-    return "c23mod_" + ("".join(n[0] for n in variant) or "none") + "_" + f
+    return "c23mod_" + ("".join(n[0] + ("0" if n.endswith("!") else "") for n in variant) or "none") + "_" + f
 
 
 def init(root) -> None:
@@ -265,6 +278,11 @@ def init(root) -> None:
     # sanity of the generated module itself (harness, not property)
     for name in SHADOWED:
         want = {"int": MARK_INT, "float": MARK_FLOAT, "len": MARK_LEN}[name]
+        falsy = {"int": FALSY_INT, "float": FALSY_FLOAT, "len": FALSY_LEN}[name]
+        if name + "!" in variant:
+            if name not in mod.__dict__ or mod.__dict__[name] is not falsy:
+                raise RuntimeError(f"generator bug: falsy binding of {name} in variant {variant}")
+            continue
         if (name in variant) != (mod.__dict__.get(name) is want) or \
                 (name not in variant and name in mod.__dict__):
             raise RuntimeError(f"generator bug: binding of {name} in variant {variant}")
@@ -295,6 +313,12 @@ def step(root, hist, op) -> dict:
     what, name = OPS[op]
     defn = _M["snap"][name]
     c0, s0, m0, f0 = _S["calls"], _S["mock_seen"], _S["mock_missing"], _S["fired"]
+    if what == "rebind-compile":
+        new = _Marker(f"len-rebound-{len(hist)}")
+        mod.__dict__["len"] = new
+        _M["snap"]["len"] = new                 # the user's action: from now on this is the expected binding
+        if "len" not in _M["order"]:
+            _M["order"].append("len")
     try:
         if what == "check":
             defn.check()
